@@ -183,7 +183,7 @@ class Walker:
         if isinstance(v, EnvGenMethod):
             return ("envgenm", v.gen.name, v.name)
         if isinstance(v, UserFn):
-            return ("fn", v.name)
+            return ("fn", v.name, v.flavour)
         if isinstance(v, UserCM):
             return ("cm", v.name, v.held)
         if isinstance(v, Closure):
@@ -385,6 +385,8 @@ class Env:
         self.fns = {}
         self.cms = {}
         self.fault_used = False
+        self.faulted = False
+        self.consumer_closed = False
         self.gens = {}
         self.ghost = {}
         self.last_key = None
@@ -682,11 +684,15 @@ class Verifier:
                         return
                     resp = yield Ev("NextOp", ops)
                     op = resp[1]
+                    # the operation in progress is part of the state: what happens after a cut point inside the
+                    # operation (a loop of the code under contract) may depend on which operation it is
+                    H["<op>"] = op
                     try:
                         res = yield from proto.perform(ip, H, op)
                         out = ("ok", res)
                     except PyRaise as pr:
                         out = ("raise", pr.exc)
+                    H.pop("<op>", None)
                     yield Ev("Result", op, out)
             if job.kind != "gen":
                 yield Ev("Done", ("return", r))
@@ -794,6 +800,20 @@ class Verifier:
             ie = adv(impl, resp, True)
 
     # ---------------------------------------------------------------
+    def user_exc_class(self, ctx):
+        """class of an injected user failure.  `UserError` (a direct subclass of Exception) stands for every class
+        no handler of the code under contract names; while the impl executes the body of a `try` whose handlers
+        name ordinary exception classes (AttributeError, KeyError, ...), the failure may be of such a class too."""
+        names = []
+        for g in getattr(self.impl_i, "guards", ()):
+            for n in g:
+                if n not in names:
+                    names.append(n)
+        if not names:
+            return "UserError"
+        classes = ["UserError"] + sorted(names)
+        return classes[ctx.choose(len(classes), "fault class")]
+
     def respond(self, ctx, ev, env):
         job = self.job
         faults = job.faults and not env.fault_used
@@ -825,10 +845,11 @@ class Verifier:
                 self.trace.append((f"pull {src.name}", "end"))
                 return ("end", None)
             env.fault_used = True
+            env.faulted = True
             if c == "raise":
                 src.ended = True
                 src.state = "closed" if src.kind == "gen" else "raised"
-                e = ExcVal("UserError", ident=("src", src.name, src.pulls), origin="env")
+                e = ExcVal(self.user_exc_class(ctx), ident=("src", src.name, src.pulls), origin="env")
             else:
                 # cancellation delivered while suspended in the source: the source itself stays open
                 e = ExcVal("Cancelled", ident=("cancel-src", src.name, src.pulls), origin="env")
@@ -879,7 +900,8 @@ class Verifier:
                 self.trace.append((d, f"ret {v.t}"))
                 return ("ret", v)
             env.fault_used = True
-            e = ExcVal("UserError" if c == "raise" else "Cancelled", ident=("call", fn.name, ctx.evseq), origin="env")
+            env.faulted = True
+            e = ExcVal(self.user_exc_class(ctx) if c == "raise" else "Cancelled", ident=("call", fn.name, ctx.evseq), origin="env")
             self.trace.append((d, f"raise {e.cls}"))
             return ("raise", e)
         if ev.kind == "Op":
@@ -897,8 +919,9 @@ class Verifier:
                 self.trace.append((d, "ok"))
                 return ("ret", v)
             env.fault_used = True
-            e = ExcVal("UserError", ident=("op", op, ctx.evseq), origin="env")
-            self.trace.append((d, "raise UserError"))
+            env.faulted = True
+            e = ExcVal(self.user_exc_class(ctx), ident=("op", op, ctx.evseq), origin="env")
+            self.trace.append((d, f"raise {e.cls}"))
             return ("raise", e)
         if ev.kind == "Yielded":
             opts = ["resume"] + (["close"] if job.closes and not env.fault_used else [])
@@ -906,6 +929,7 @@ class Verifier:
             self.trace.append((f"yield {describe(ev.payload[0])}", c))
             if c == "close":
                 env.fault_used = True
+                env.consumer_closed = True
             return (c, None)
         if ev.kind in ("AwaitVal", "Await"):
             hook = job.opts.get("at_suspension")
@@ -925,7 +949,8 @@ class Verifier:
                 self.trace.append((f"await {describe(ev.payload[0])}", f"ret {describe(v)}"))
                 return ("ret", v)
             env.fault_used = True
-            e = ExcVal("UserError" if c == "raise" else "Cancelled", ident=("await", ctx.evseq), origin="env")
+            env.faulted = True
+            e = ExcVal(self.user_exc_class(ctx) if c == "raise" else "Cancelled", ident=("await", ctx.evseq), origin="env")
             self.trace.append((f"await {describe(ev.payload[0])}", f"raise {e.cls}"))
             return ("raise", e)
         if ev.kind == "SrcOp":
@@ -960,6 +985,7 @@ class Verifier:
                         cm.held += 1
                         return ("ret", Opaque(ctx.fresh(Val, f"{cm.name}_value")))
                     env.fault_used = True
+                    env.faulted = True
                     return ("raise", ExcVal("Cancelled", ident=("cancel-at-lock", cm.name, ctx.evseq), origin="env"))
                 cm.held -= 1
                 self.trace.append((d, "released"))
@@ -1184,7 +1210,9 @@ class Verifier:
         return out
 
     def ev_sites(self, ie, re_):
-        return f"{ie.kind}@{self.fmt_site(ie.site)}~{re_.kind}@{self.fmt_site(re_.site)}"
+        # `+fault`: a source/callable/awaitable of the environment has raised earlier on this path (C06/C18 territory)
+        tag = "+fault" if getattr(self.env, "faulted", False) else ""
+        return f"{ie.kind}@{self.fmt_site(ie.site)}~{re_.kind}@{self.fmt_site(re_.site)}{tag}"
 
     @staticmethod
     def fmt_site(s):
@@ -1325,7 +1353,10 @@ class Verifier:
         (ik, iv), (rk, rv) = ie.payload[0], re_.payload[0]
         nm = f"{job.name}/outcome-match"
         if ik != rk:
-            self.prove(ctx, nm, "outcome-match", False, detail=f"impl: {self.ev_desc(ie)}; reference: {self.ev_desc(re_)}")
+            # an environment exception on one side only: swallowed / invented failure
+            envexc = (ik == "raise" and getattr(iv, "origin", None) == "env") or (rk == "raise" and getattr(rv, "origin", None) == "env")
+            self.prove(ctx, f"{job.name}/exc-identity" if envexc else nm, "exc-identity" if envexc else "outcome-match", False,
+                       detail=f"impl: {self.ev_desc(ie)}; reference: {self.ev_desc(re_)}")
         elif ik == "return":
             self.prove(ctx, nm, "outcome-match", self.val_eq(iv, rv), detail=f"impl returns {describe(iv)}; reference returns {describe(rv)}")
         else:
